@@ -68,6 +68,24 @@ struct Outcome {
     mismatches: Vec<String>,
 }
 
+/// Wall budget of ONE loom model (a program), set from the tier. On the
+/// unchanged tree every program finishes in milliseconds to seconds; a change
+/// that puts atomics on a search's hot path can make the interleaving space
+/// astronomically large - then loom stops at the budget and the run is
+/// reported as capped (not exhaustive), never as a verdict.
+static MODEL_BUDGET_S: AtomicU64 = AtomicU64::new(20);
+static CAPPED: Mutex<Vec<String>> = Mutex::new(Vec::new());
+
+fn budget() -> std::time::Duration {
+    std::time::Duration::from_secs(MODEL_BUDGET_S.load(Ordering::Relaxed))
+}
+
+fn note_cap(t0: std::time::Instant, what: &str) {
+    if t0.elapsed() >= budget() {
+        CAPPED.lock().unwrap().push(format!("loom model '{}' stopped at its {} s wall budget", what, budget().as_secs()));
+    }
+}
+
 /// Explores every interleaving (up to `bound` preemptions; None = unbounded)
 /// of the given per-thread programs.
 fn explore(programs: &[Vec<Op>], bound: Option<usize>) -> Outcome {
@@ -77,6 +95,8 @@ fn explore(programs: &[Vec<Op>], bound: Option<usize>) -> Outcome {
     let mut b = loom::model::Builder::new();
     b.preemption_bound = bound;
     b.max_branches = 100_000;
+    b.max_duration = Some(budget());
+    let t0_model = std::time::Instant::now();
     let programs: Arc<Vec<Vec<Op>>> = Arc::new(programs.to_vec());
     let (e2, h2, m2, p2) = (executions.clone(), hist.clone(), mismatches.clone(), programs.clone());
     b.check(move || {
@@ -110,6 +130,7 @@ fn explore(programs: &[Vec<Op>], bound: Option<usize>) -> Outcome {
     for i in 0..8 {
         detect_hist[i] = hist[i].load(Ordering::Relaxed);
     }
+    note_cap(t0_model, "program");
     let m = mismatches.lock().unwrap().clone();
     Outcome { executions: executions.load(Ordering::Relaxed), detect_hist, mismatches: m }
 }
@@ -129,6 +150,8 @@ fn explore_shared(threads: usize, long_needle: bool, bound: Option<usize>) -> Ou
     let mut b = loom::model::Builder::new();
     b.preemption_bound = bound;
     b.max_branches = 100_000;
+    b.max_duration = Some(budget());
+    let t0_model = std::time::Instant::now();
     b.check(move || {
         let needle: &'static [u8] = if long_needle { b"zqe e e e e e e e e e e e e e e e e e e e" } else { b"zq" };
         let finder = Arc::new(memmem::Finder::new(needle));
@@ -181,6 +204,7 @@ fn explore_shared(threads: usize, long_needle: bool, bound: Option<usize>) -> Ou
         }
         e2.fetch_add(1, Ordering::Relaxed);
     });
+    note_cap(t0_model, "program");
     let m = mismatches.lock().unwrap().clone();
     Outcome { executions: executions.load(Ordering::Relaxed), detect_hist: [0; 8], mismatches: m }
 }
@@ -199,6 +223,8 @@ fn explore_free_functions(programs: &[Vec<usize>], bound: Option<usize>) -> Outc
     let mut b = loom::model::Builder::new();
     b.preemption_bound = bound;
     b.max_branches = 200_000;
+    b.max_duration = Some(budget());
+    let t0_model = std::time::Instant::now();
     b.check(move || {
         let mut hs = vec![];
         for (t, prog) in programs.iter().enumerate() {
@@ -233,6 +259,7 @@ fn explore_free_functions(programs: &[Vec<usize>], bound: Option<usize>) -> Outc
         }
         e2.fetch_add(1, Ordering::Relaxed);
     });
+    note_cap(t0_model, "program");
     let m = mismatches.lock().unwrap().clone();
     Outcome { executions: executions.load(Ordering::Relaxed), detect_hist: [0; 8], mismatches: m }
 }
@@ -242,6 +269,7 @@ fn main() {
     let out = args.str("out", "-");
     let thorough = args.str("tier", "quick") == "thorough";
     let t0 = std::time::Instant::now();
+    MODEL_BUDGET_S.store(args.num("model-budget", if thorough { 180 } else { 20 }), Ordering::Relaxed);
     let mut total = Report::default();
     // program families
     let mut families: Vec<(String, Vec<Vec<Op>>, Option<usize>)> = vec![];
@@ -372,9 +400,10 @@ fn main() {
         "engine": if cfg!(memchr_verif_loomcopy) { "loomcheck (loom 0.7.2; every atomic/std::sync primitive of a scratch copy of the crate rewritten to loom)" } else { "loomcheck (loom 0.7.2 on the real unsafe_ifunc! cells)" }, "tier": if thorough { "thorough" } else { "quick" },
         "bounds": {"programs": families.len(), "two_thread_programs": "unbounded preemptions", "three_thread_programs": "preemption bound 3 (thorough: also 3x1 unbounded and 3x2 at bound 4)", "four_thread_programs": "thorough: preemption bound 3"},
         "nontrivial_rule": "an execution is non-trivial when CPU detection ran more often than the number of distinct dispatch cells the program touches, i.e. two threads raced through the same cell's first call",
-        "exhaustive": true,
+        "exhaustive": CAPPED.lock().unwrap().is_empty(),
         "wall_s": t0.elapsed().as_secs_f64(),
     });
+    total.caps_hit.extend(CAPPED.lock().unwrap().drain(..));
     total.write(&out, "loomcheck", extra);
     eprintln!("loomcheck: {} programs, {} interleavings, {} violations, {:.1}s", total.states, total.evaluations, total.violation_count, t0.elapsed().as_secs_f64());
     if only.is_some() {
